@@ -84,6 +84,10 @@ func materialise(dir string, c RestartCase, rng *rand.Rand, allowOld bool) ([]ma
 			d, ok := keyCAS[f.Key]
 			if !ok {
 				d = drv.GenData(rng, target-80, 0) // incompressible: on-disk = header + ~len
+				if rng.Intn(2) == 0 {
+					// well compressible: the logical size is far beyond the file size (and beyond small max_size values)
+					d = append(drv.GenData(rng, target-400, 0), make([]byte, 200000+rng.Intn(900000))...)
+				}
 				keyCAS[f.Key] = d
 			}
 			data = d
@@ -91,6 +95,20 @@ func materialise(dir string, c RestartCase, rng *rand.Rand, allowOld bool) ([]ma
 			enc, err := fmtw.EncodeCAS(data, []int{1 << 20, 1 << 16, 4096}[rng.Intn(3)], zstd.SpeedFastest)
 			if err != nil {
 				return nil, nil, nil, err
+			}
+			for tries := 0; (len(enc)+4095)/4096 != f.Size && tries < 40; tries++ {
+				// trim or extend the incompressible part until the file has the wanted number of blocks
+				cut := 200
+				if (len(enc)+4095)/4096 < f.Size {
+					data = append(drv.GenData(rng, cut, 0), data...)
+				} else if len(data) > cut+10 {
+					data = data[cut:]
+				}
+				hash = fmtw.Sha(data)
+				if enc, err = fmtw.EncodeCAS(data, 1<<20, zstd.SpeedFastest); err != nil {
+					return nil, nil, nil, err
+				}
+				keyCAS[f.Key] = data
 			}
 			onDisk = enc
 		case fmtw.CASLegacy:
